@@ -2,7 +2,7 @@
 import os
 import pmlib
 
-LEAN_MODULES = ["PomerolModel.Properties.C16", "PomerolModel.Model.DispatcherDedicated"]
+LEAN_MODULES = ["PomerolModel.Properties.C16", "PomerolModel.Properties.C16Dedicated", "PomerolModel.Model.DispatcherDedicated"]
 GENERATED = ["disp"]
 THEOREMS = [
     "Pomerol.Properties.C16.every_job_at_most_once",
@@ -11,6 +11,14 @@ THEOREMS = [
     "Pomerol.Properties.C16.no_leaked_messages",
     "Pomerol.Properties.C16.no_deadlock",
     "Pomerol.Properties.C16.finitely_many_receptions",
+    # dedicated-master pattern (rank 0 only drives `for (; !master.is_finished();) { order(); check_workers(); }`)
+    "Pomerol.Properties.C16.dedicated_every_job_at_most_once",
+    "Pomerol.Properties.C16.dedicated_every_job_exactly_once_at_exit",
+    "Pomerol.Properties.C16.dedicated_map_names_executing_rank",
+    "Pomerol.Properties.C16.dedicated_no_leaked_messages",
+    "Pomerol.Properties.C16.dedicated_no_deadlock",
+    "Pomerol.Properties.C16.dedicated_finitely_many_receptions",
+    "Pomerol.Properties.C16.dedicated_master_exit_after_finish",
     # the loop conditions of MPIMaster::order / check_workers as generated from the source are the ones the models use
     "Pomerol.Model.DispD.orderCondition_matches_orderLoop",
     "Pomerol.Model.DispD.finishCondition_matches_finishPhase",
@@ -24,7 +32,8 @@ TRUSTED = ["harness/mockmpi/boost/mpi.hpp: mock of the Boost.MPI subset with MPI
 ASSUMPTIONS = ["MPI semantics as listed in lean/PomerolModel/Model/Dispatcher.lean (non-overtaking, local completion of "
                "small standard-mode sends, test() sees a message at most once, cancel of an unmatched receive succeeds)",
                "termination is stated as no-deadlock + finitely many receptions under eventual message visibility"]
-LEVEL_TEXT = ("Proof: Lean 4 theorems over the transition-system model of mpi_skel::run + MPIMaster + MPIWorker, for "
+LEVEL_TEXT = ("Proof: Lean 4 theorems over the transition-system models of mpi_skel::run + MPIMaster + MPIWorker and of the "
+              "dedicated-master loop on MPIMaster::is_finished() (loop conditions generated from the source), for "
               "every number of ranks, every job list and every schedule/message delay: each job executed at most once, "
               "exactly once when all ranks have left the loop, the dispatch map names the executing rank, no message is "
               "left over, a final state is reachable from every reachable state and only finitely many receptions can "
